@@ -39,13 +39,18 @@ mod b;
 /// Oracle breadth: secondary entry points, presets / options, thresholds, object histories (cells `wide/...`, S-only).
 #[path = "c01_wide.rs"]
 mod wide;
+/// Coq cases for the serialised forms, the context constructors and the parallel front end (ops 7-12).
+#[path = "c01_x.rs"]
+mod x;
 
-pub const IMPORTS_A: &str = "From ZV.C01 Require Import Model ModelCtx.\n";
+pub const IMPORTS_A: &str = "From ZV.C01 Require Import Model ModelCtx ModelSer ModelNew ModelPar.\n";
+/// ops 1-6 ModelCtx.v, 7-10 ModelSer.v, 11 ModelNew.v, 12 ModelPar.v
+pub const DISPATCH_A: &str = "(if op <? 7 then run_case_a op a b else if op <? 11 then run_case_ser op a b else if op <? 12 then run_case_new op a b else run_case_par op a b)";
 pub const HEADER_A: &str = r#"From ZV.Common Require Import Base Run.
-From ZV.C01 Require Import Model ModelCtx.
+From ZV.C01 Require Import Model ModelCtx ModelSer ModelNew ModelPar.
 Open Scope N_scope.
 Definition case_t : Type := N * list N * list N * list N.
-Definition run_case (op : N) (a b : list N) : list N := run_case_a op a b.
+Definition run_case (op : N) (a b : list N) : list N := if op <? 7 then run_case_a op a b else if op <? 11 then run_case_ser op a b else if op <? 12 then run_case_new op a b else run_case_par op a b.
 Definition ok (c : case_t) : bool :=
   let '(op, a, b, expect) := c in eqb_ln (run_case op a b) expect.
 "#;
@@ -78,6 +83,8 @@ pub struct Cx {
     coq_share: usize,
     /// generator family the job belongs to: 0 enumerated, 1 boundary, 2 random, 3 crafted, 4 corpus / replay
     cat: u8,
+    /// the job's constructor cases (op 11) are emitted whatever the budget says
+    force_new: bool,
 }
 fn fnv64(s: &str) -> u64 {
     let mut h: u64 = 0xcbf29ce484222325;
@@ -86,12 +93,12 @@ fn fnv64(s: &str) -> u64 {
 }
 /// Coq cases per (operation, generator family): every modelled function is represented by every family
 fn coq_cap(op: u32, cat: u8, th: bool) -> usize {
-    let per_op = match op { 1 => 290, 2 => 420, 3 => 190, 4 => 260, 5 => 220, 6 => 300, _ => 40 };
+    let per_op = match op { 1 => 270, 2 => 380, 3 => 180, 4 => 240, 5 => 200, 6 => 270, 7 => 50, 8 => 100, 9 => 40, 10 => 110, 11 => 60, 12 => 70, 13 => 40, _ => 40 };
     let pct = match cat { 0 => 15, 1 => 30, 2 => 15, 3 => 40, _ => 100 };
     (if th { 4 } else { 1 }) * per_op * pct / 100
 }
 impl Cx {
-    pub fn new(th: bool, coq_share: usize, cat: u8) -> Self { Cx { ev: vec![], th, coq_used: HashMap::new(), coq_share, cat } }
+    pub fn new(th: bool, coq_share: usize, cat: u8) -> Self { Cx { ev: vec![], th, coq_used: HashMap::new(), coq_share, cat, force_new: false } }
     fn eval(&mut self, cell: &str, key: &str, nontrivial: bool) {
         self.ev.push(Ev::Eval(cell.to_string(), format!("{} {:016x} {}", cell, fnv64(key), key.len()), nontrivial));
     }
@@ -247,9 +254,12 @@ fn obs(r: &Result<Vec<u8>, String>) -> Vec<u128> {
 }
 impl Cx {
     fn coq(&mut self, op: u32, a: Vec<u128>, b: &[u8], expect: Vec<u128>, what: &str, force: bool) {
+        self.coq_w(op, a, b, expect, what, force, 6000)
+    }
+    fn coq_w(&mut self, op: u32, a: Vec<u128>, b: &[u8], expect: Vec<u128>, what: &str, force: bool, max_weight: usize) {
         let cap = (coq_cap(op, self.cat, self.th) * self.coq_share + 99) / 100;
         let weight = a.len() + b.len() + expect.len();
-        if weight > 6000 { return; }
+        if weight > max_weight { return; }
         let used = self.coq_used.entry(op).or_insert(0);
         if !force && *used >= cap { return; }
         *used += 1;
@@ -326,6 +336,7 @@ fn case_order0(cx: &mut Cx, train: &[u8], freqs: Option<[u32; 256]>, data: &[u8]
     if let (Some(ft), Ok(rr)) = (&flat, &r) { cx.coq(1, ft.clone(), data, obs(rr), "HuffmanEncoder::encode", force); }
     let bytes = judge(cx, cell, &cj, data, r, &mut |b, n| { let d = HuffmanDecoder::new(tree.clone()); guarded(|| es(d.decode(b, n))) });
     if let Some(bytes) = &bytes {
+        x::tree_ser_cases(cx, &tree, bytes, data.len(), force);
         // the tree as another process would obtain it
         let t2 = guarded(|| es(HuffmanTree::deserialize(&tree.serialize())));
         match t2 {
@@ -408,6 +419,10 @@ fn par_case<P: ParallelVariant>(cx: &mut Cx, train: &[u8], data: &[u8], cj: &Val
                 if !auto { e.train(tr)?; }
                 e.encode(data)
             }).map(es);
+            {
+                let ops: Vec<(bool, Vec<u8>)> = if auto { vec![(false, data.to_vec())] } else { vec![(true, tr.to_vec()), (false, data.to_vec())] };
+                x::par_history::<P>(cx, cname, &ops, None, cj, false);
+            }
             let c3 = cfg.clone();
             judge(cx, &cell, cj, data, r, &mut |b, n| guarded(|| {
                 let mut d = ParallelHuffmanDecoder::<P>::new(c3.clone());
@@ -431,6 +446,11 @@ fn case_adaptive(cx: &mut Cx, data: &[u8]) {
     cx.dist(&format!("adaptive_{}_{}", alg, var));
     if alg != "huffman" { return; } // the rANS / FSE paths belong to the other half
     let r = guarded(|| { let mut e = AdaptiveParallelEncoder::new()?; e.encode_adaptive(data) }).map(es);
+    if let Ok(rr) = &r {
+        let streams = match var.as_str() { "x2" => 2, "x4" => 4, _ => 8 };
+        let d = match rr { Ok(b) => guarded(|| { let d = HuffmanDecoder::new(HuffmanTree::from_data(data)?); d.decode(b, data.len()) }).map(es).ok(), Err(_) => None };
+        x::adaptive_case(cx, streams, data, rr, d.as_ref());
+    }
     judge(cx, "parallel/adaptive", &cj, data, r, &mut |b, n| guarded(|| {
         let d = HuffmanDecoder::new(HuffmanTree::from_data(data)?);
         d.decode(b, n)
@@ -487,6 +507,7 @@ fn judge_encoder(cx: &mut Cx, prefix: &str, enc: ContextualHuffmanEncoder, cj: &
             if let Some(f) = &flat {
                 let mut a = vec![*n as u128, data.len() as u128]; a.extend(f.iter().cloned());
                 cx.coq(6, a, &bytes, obs(&Ok(data.to_vec())).into_iter().collect(), "decode_xn", force);
+                if eff_order == 1 && (data.len() + k) % 2 == 0 { x::enc_ser_cases(cx, &enc, 1, *n, &bytes, data.len(), force); }
                 // wrong length / damaged stream: whatever the decoder answers, the model answers the same
                 if data.len() % 4 == 1 && !bytes.is_empty() {
                     let mut g = bytes.clone();
@@ -509,6 +530,7 @@ fn judge_encoder(cx: &mut Cx, prefix: &str, enc: ContextualHuffmanEncoder, cj: &
     let cell = format!("{}/order{}", prefix, eff_order);
     let r = guarded(|| es(enc.encode(data)));
     if let (Some(f), Ok(rr)) = (&flat, &r) { cx.coq(3, f.clone(), data, obs(rr), "ContextualHuffmanEncoder::encode", force); }
+    if let Ok(Ok(b)) = &r { x::enc_ser_cases(cx, &enc, 0, 0, b, data.len(), force); }
     let dec = ContextualHuffmanDecoder::new(enc);
     let bytes = judge(cx, &cell, cj, data, r, &mut |b, n| guarded(|| es(dec.decode(b, n))));
     if let Some(bytes) = bytes {
@@ -546,7 +568,13 @@ fn case_ctx(cx: &mut Cx, order: u64, train: &[u8], data: &[u8], xn_mask: u32, fo
     match guarded(|| es(ContextualHuffmanEncoder::new(train, order_of(order)))) {
         Err(p) => { let mut c = cj.clone(); c["cell"] = json!(cell); cx.eval(&cell, &cj.to_string(), true); cx.fail(&cell, None, c, &format!("constructor panicked: {}", p)); }
         Ok(Err(_)) => cx.dist("constructor_refused"),
-        Ok(Ok(enc)) => judge_encoder(cx, "ctx", enc, &cj, data, xn_mask, force),
+        Ok(Ok(enc)) => {
+            if let Some(v) = view_of(&enc) { let f = force || cx.force_new; x::ctx_new_case(cx, order, train, &v, f); }
+            // the dedicated constructor job: its order-2 encoders over short trainings are small enough to go through
+            // the serialisation cases (ops 9, 10) whatever the budget says
+            let f = force || (cx.force_new && order == 2 && train.len() <= 4);
+            judge_encoder(cx, "ctx", enc, &cj, data, xn_mask, f)
+        }
     }
 }
 
@@ -721,6 +749,7 @@ pub fn run_one(cx: &mut Cx, c: &Value) -> bool {
         "ctx" => { case_ctx(cx, c["order"].as_u64().unwrap_or(1), &train, &data, mask, true); true }
         "crafted" => { let v = view_from_json(c["order"].as_u64().unwrap_or(1), &c["tables"], &c["ctxmap"]); case_crafted(cx, &v, &data, mask, true); true }
         "adaptive" => { case_adaptive(cx, &data); true }
+        "par_hist" => { x::run_par_hist(cx, c); true }
         "varlen" => { case_varlen(cx, c["value"].as_u64().unwrap_or(0) as u32, c["length"].as_u64().unwrap_or(1) as u32, c["bmi2"].as_bool().unwrap_or(true)); true }
         _ => wide::run_one(cx, c),
     }
@@ -760,15 +789,18 @@ fn run_jobs(jobs: Vec<JobSpec>, sum: &mut Summary, shards: &mut CoqShards, rng: 
 pub fn run_cells(sum: &mut Summary, shards: &mut CoqShards, rng: &mut Rng, args: &Args) {
     let th = args.thorough;
     // cells without a mechanism model of their own (the wrappers, the serialised forms, the SIMD bit buffer)
-    for c in ["huffman/order0/serialized_tree", "simd/avx2bmi2", "simd/avx2", "simd/sse42bmi2", "simd/sse42", "simd/bmi2", "simd/scalar", "parallel/adaptive", "bit_ops/varlen"] {
+    sum.cell_status("huffman/order0/serialized_tree", "M+S");
+    for v in ["x2", "x4", "x8"] { sum.cell_status(&format!("parallel/{}/history", v), "M+S"); }
+    sum.cell_status("parallel/adaptive", "M+S");
+    for c in ["simd/avx2bmi2", "simd/avx2", "simd/sse42bmi2", "simd/sse42", "simd/bmi2", "simd/scalar", "bit_ops/varlen"] {
         sum.cell_status(c, "S-only");
     }
     for v in ["x2", "x4", "x8"] { for c in ["default", "low_latency", "high_throughput", "always_parallel"] { for a in ["", "/auto_train"] {
-        sum.cell_status(&format!("parallel/{}/{}{}", v, c, a), "S-only");
+        sum.cell_status(&format!("parallel/{}/{}{}", v, c, a), "M+S");
     } } }
     for pfx in ["ctx", "crafted"] {
-        for k in 0..3 { sum.cell_status(&format!("{}/order{}/serialized", pfx, k), "S-only"); }
-        for n in [1, 2, 4, 8] { sum.cell_status(&format!("{}/x{}/serialized", pfx, n), "S-only"); }
+        for k in 0..3 { sum.cell_status(&format!("{}/order{}/serialized", pfx, k), "M+S"); }
+        for n in [1, 2, 4, 8] { sum.cell_status(&format!("{}/x{}/serialized", pfx, n), "M+S"); }
     }
     let mut jobs: Vec<JobSpec> = vec![];
     // 1. enumerated universe: all strings of length <= 3 over a 3-letter alphabet x every variant x three trainings
@@ -854,6 +886,24 @@ pub fn run_cells(sum: &mut Summary, shards: &mut CoqShards, rng: &mut Rng, args:
             }), 4, 1));
         }
     }
+    // 3b. the counting loops of the constructors: short trainings (the order fallbacks), every byte as an order-1 context,
+    // order-2 trainings with fewer and more than 1024 distinct contexts (ties at the cut)
+    jobs.push((Box::new(move |cx: &mut Cx, rng: &mut Rng| {
+        let mut ts: Vec<Vec<u8>> = vec![vec![], vec![7], vec![7, 7], vec![0, 255], vec![1, 2, 3], vec![9, 9, 9], TEXT.to_vec()];
+        ts.push((0..=255u8).chain(0..=255u8).collect());
+        ts.push(rng.bytes(1300));
+        { let al = alphabet(rng, 40); ts.push(payload(rng, 1, 2000, &al)); }
+        { let al = alphabet(rng, 33); ts.push(payload(rng, 0, 1030, &al)); }
+        cx.force_new = true;
+        for t in ts.iter() {
+            for order in 0..3u64 {
+                let x: Vec<u8> = if t.len() > 300 { t[..50].iter().rev().cloned().collect() } else { t.iter().rev().cloned().collect() };
+                case_ctx(cx, order, t, &x, 0, false);
+            }
+        }
+    }), 10, 1));
+    // 3c. histories on one ParallelHuffmanEncoder object
+    jobs.push((Box::new(move |cx: &mut Cx, rng: &mut Rng| x::par_jobs(cx, rng)), 100, 2));
     // 4. random cases
     for chunk in 0..(if th { 300 } else { 30 }) {
         jobs.push((Box::new(move |cx: &mut Cx, rng: &mut Rng| {
@@ -911,7 +961,7 @@ pub fn run_cells(sum: &mut Summary, shards: &mut CoqShards, rng: &mut Rng, args:
 /// Header of the generated Coq case files: both halves' models, cases dispatched on the op number
 /// (Huffman half: ops below 100, `run_case_a` in ModelCtx.v; rANS / FSE / LZ half: `run_case_b` in ModelFse.v).
 fn merged_header() -> String {
-    format!("From ZV.Common Require Import Base Run.\n{}{}Open Scope N_scope.\nDefinition case_t : Type := N * list N * list N * list N.\nDefinition run_case (op : N) (a b : list N) : list N := if op <? 100 then run_case_a op a b else run_case_b op a b.\nDefinition ok (c : case_t) : bool :=\n  let '(op, a, b, expect) := c in eqb_ln (run_case op a b) expect.\n", IMPORTS_A, b::HEADER_B)
+    format!("From ZV.Common Require Import Base Run.\n{}{}Open Scope N_scope.\nDefinition case_t : Type := N * list N * list N * list N.\nDefinition run_case (op : N) (a b : list N) : list N := if op <? 100 then {} else run_case_b op a b.\nDefinition ok (c : case_t) : bool :=\n  let '(op, a, b, expect) := c in eqb_ln (run_case op a b) expect.\n", IMPORTS_A, b::HEADER_B, DISPATCH_A)
 }
 
 /// The two halves keep separate shard sets (the rANS / FSE cases are ~10x more expensive to evaluate in Coq, so their
